@@ -184,8 +184,12 @@ def execute(scenario: Dict[str, Any], sched_spec: Optional[Dict[str, Any]] = Non
                 _arm_watchdog()      # for the clean-up below
             finally:
                 run.rec("run_returned")
+                res.world_info["loop_closed_by_mosaik"] = loop.is_closed()
+                res.world_info["deadlock_seen"] = loop.deadlocked
+                res.world_info["livelock_seen"] = loop.livelocked
                 try:
                     if world is not None and not loop.is_closed():
+                        run.rec("harness_cleanup")
                         if res.outcome and res.outcome[0] in ("deadlock", "livelock") \
                                 and res.outcome[1:2] == ("setup",):
                             pass
@@ -197,7 +201,6 @@ def execute(scenario: Dict[str, Any], sched_spec: Optional[Dict[str, Any]] = Non
                             except Exception as e:  # noqa: BLE001
                                 run.rec("shutdown_exc", type(e).__name__, str(e)[:200])
                 finally:
-                    res.world_info["loop_closed_by_mosaik"] = loop.is_closed()
                     if not loop.is_closed():
                         try:
                             loop.close()
